@@ -68,6 +68,17 @@ package regclient
 // are matched by n receives; if the function has received as many values as it spawned tasks and
 // all were nil, every child task sent nil. Side condition (checked separately): each spawned
 // goroutine sends exactly once, after its child call returned.
+// Completeness of the walk (C03): every entry of an index is handed to a copy task unless the
+// platform filter deselected that very entry ($entryDeselected[k], recorded where the filter
+// answers for entry k); every layer unless it is an external layer and external layers were not
+// asked for ($layerExternal[k], a snapshot taken at the loop head before iteration k runs); the config whenever the manifest has one. $entriesComplete /
+// $layersComplete are fixed where the two loops are left; the manifest is pushed only with both.
+//@ ghost $entrySpawned [1]bool
+//@ ghost $entryDeselected [1]bool
+//@ ghost $layerSpawned [1]bool
+//@ ghost $layerExternal [1]bool
+//@ ghost $cfgWanted bool
+//@ ghost $cfgSpawned bool
 //@ ghost $spawned int
 //@ ghost $received int
 //@ ghost $allNil bool
@@ -79,8 +90,19 @@ package regclient
 //@   on-recv waitCh: $allNil = $allNil && v == nil
 //@   loop 0 (dEntry)
 //@     invariant counter: waitCount >= 0 && waitCount == $spawned - $received && $received == 0 && $allNil
+//@     invariant every-entry-spawned-or-deselected: -1 <= $idx && $idx < len(dList) && forall(k, 0, $idx + 1, $entrySpawned[k] || $entryDeselected[k])
+//@     exit-assert every-entry-handed-to-a-task-or-deselected: forall(k, 0, len(dList), $entrySpawned[k] || $entryDeselected[k])
 //@   loop 1 (layerSrc)
 //@     invariant counter: waitCount >= 0 && waitCount == $spawned - $received && $received == 0 && $allNil
+//@     invariant every-layer-spawned-or-external: -1 <= $idx__2 && $idx__2 < len(l) && forall(k, 0, $idx__2 + 1, $layerSpawned[k] || $layerExternal[k])
+//@     head-effect $layerExternal = $upd($layerExternal, $idx__2 + 1, len(l[$idx__2 + 1].URLs) > 0 && !opt.includeExternal)
+//@     exit-assert every-layer-handed-to-a-task-or-external: forall(k, 0, len(l), $layerSpawned[k] || $layerExternal[k])
+//@   entry-assume !$cfgWanted && !$cfgSpawned
+//@   on-go #3: $entrySpawned = $upd($entrySpawned, $idx, true)
+//@   on-go #5: $layerSpawned = $upd($layerSpawned, $idx__2, true)
+//@   on-go #4: $cfgSpawned = true
+//@   on-call imagePlatformInList: $entryDeselected = $upd($entryDeselected, $idx, !result0 && result1 == nil)
+//@   on-call GetConfig: $cfgWanted = (result1 == nil)
 //@   loop 2 ()
 //@     invariant counter: waitCount >= 0 && waitCount == $spawned - $received && (err == nil ==> $allNil)
 //@   loop 3 (rConf)
@@ -91,6 +113,12 @@ package regclient
 //@     invariant counter: waitCount >= 0 && waitCount == $spawned - $received && $allNil
 //@   loop 6 ()
 //@     invariant counter: waitCount >= 0 && waitCount == $spawned - $received && (err == nil ==> $allNil)
+//@ callsite imagePlatformInList(target, list)
+//@   prop C03
+//@   name imagePlatformInList/imageCopyOpt
+//@   in ~
+//@   infunc \)\.imageCopyOpt$
+//@   requires asks-about-this-entry-and-the-requested-platforms: target == caller.dEntry.Platform && list == caller.opt.platforms && len(list) > 0
 //@ callsite (*RegClient).ManifestPut(ctx, r, m, opts)
 //@   prop C04, C03
 //@   name ManifestPut/imageCopyOpt
@@ -98,6 +126,7 @@ package regclient
 //@   infunc \)\.imageCopyOpt$
 //@   requires children-done: $spawned == $received && $allNil
 //@   requires writes-target: r == caller.refTgt
+//@   requires config-was-handed-to-a-task: $cfgWanted ==> $cfgSpawned
 
 // side condition of the channel rule: every goroutine body spawned by imageCopyOpt sends exactly
 // one value on waitCh on every path (index entry, config, layer, referrer, digest-tag tasks)
